@@ -171,6 +171,17 @@ Theorem C01_getrange_negative_order_refuted :
 Proof. exact getrange_negative_order_refuted_lemma. Qed.
 Print Assumptions C01_getrange_negative_order_refuted.
 
+(* The reference is binary safe: members and fields are compared as byte strings.  The
+   implementation stores them as lossy-UTF-8 Strings (known finding C01-lossy-members: two
+   different non-UTF-8 members collapse); the harness shows the witness on the real executor. *)
+Theorem C01_members_are_binary_safe : forall dl now (k m m' : list N),
+  (exec dl (exec dl ∅ now (SAdd k [m])).1 now (SIsMember k m')).2 = RInt (if bool_decide (m' = m) then 1 else 0) /\
+  (exec dl (exec dl ∅ now (HSet k [(m, [118%N])])).1 now (HExists k m')).2 = RInt (if bool_decide (m' = m) then 1 else 0) /\
+  (exec dl (exec dl ∅ now (ZAdd k [(1, m)] false false false false false)).1 now (ZScore k m')).2 =
+     RBulk (if bool_decide (m' = m) then Some [49%N] else None).
+Proof. exact members_binary_safe_lemma. Qed.
+Print Assumptions C01_members_are_binary_safe.
+
 (* A concrete run: SET k 10 PX 100; INCR k; RPUSH l a b; clock 99; LPOP l; LPOP l; clock 100. *)
 Example C01_nonvacuous :
   (run Redis (firstn 4 ex_ops)).1 !! [107%N] = Some (VStr [49%N; 49%N], Some 100%N) /\
